@@ -64,6 +64,8 @@ def norm(x):
         return ('c', x.real, x.imag)
     if x is None:
         return None
+    if isinstance(x, np.dtype):
+        return ('dtype', str(x))  # the Python class of a dtype instance is not stable across copies in NumPy 2
     return ('o', type(x).__name__, repr(x))
 
 
